@@ -100,6 +100,8 @@ size_t strftime(char *buf, size_t max, const char *fmt, const struct tm *tm) noe
         case 'M': PUT('0' + known.M[0]); PUT('0' + known.M[1]); break;
         case 'S': PUT('0' + known.S[0]); PUT('0' + known.S[1]); break;
         case 'Y': for (int k = 0; k < 4; ++k) PUT('0' + known.Y[k]); break;
+        case 'y': PUT('0' + known.Y[2]); PUT('0' + known.Y[3]); break;
+        case 'A': for (const char *p = dayNameFull[known.wday]; *p; ++p) PUT(*p); break;
         default: vf_assert(0, "strftime model: conversion not modelled");
         }
     }
@@ -160,10 +162,10 @@ static bool two(const unsigned char *s, int64_t &v) { if (!isDig(s[0]) || !isDig
 // HH:MM:SS at s
 static bool refTime(const unsigned char *s, Civil &c) { return two(s, c.hour) && s[2] == ':' && two(s + 3, c.min) && s[5] == ':' && two(s + 6, c.sec); }
 
-struct Ref { bool inForm; Civil c; int64_t C, yy; };
+struct Ref { bool inForm, denotes; Civil c; int64_t C, yy; };
 static Ref reference(const unsigned char *s, const unsigned n)
 {
-    Ref r; r.inForm = false; r.c.mon = 0;
+    Ref r; r.inForm = r.denotes = false; r.c.mon = 0;
     int64_t hi, lo;
     // IMF-fixdate: "Sun, 06 Nov 1994 08:49:37 GMT"
     if (n == 29) {
@@ -198,7 +200,8 @@ static Ref reference(const unsigned char *s, const unsigned n)
             }
         }
     }
-    if (r.inForm && !(r.c.hour <= 23 && r.c.min <= 59 && r.c.sec <= 60 && r.c.mday >= 1 && r.c.mday <= 31)) r.inForm = false;
+    // in the form, but no time of day / day of month: denotes nothing (23:59:60 is the leap second)
+    r.denotes = r.inForm && r.c.hour <= 23 && r.c.min <= 59 && r.c.sec <= 60 && r.c.mday >= 1 && r.c.mday <= 31;
     return r;
 }
 
@@ -207,7 +210,7 @@ static void checkParse(const unsigned char *s, const unsigned n)
     vf_quiet();
     const Ref r = reference(s, n);
     known.set = false;
-    if (r.inForm) {
+    if (r.denotes) {
         bool leap;
         Civil c = r.c; c.year = 100 * r.C + r.yy;
         const int64_t t = civilToTimeDigits(r.C, r.yy, c, leap);
@@ -224,6 +227,7 @@ static void checkParse(const unsigned char *s, const unsigned n)
     vf_observe("inForm", r.inForm); vf_observe("got", (uint64_t)got);
     const bool accepted = vf_concretize(got != -1) != 0;        // one path per outcome (keeps the vf_reach labels concrete)
     if (r.inForm && accepted) {
+        vf_assert(r.denotes, "an accepted date in IMF-fixdate, RFC 850 or asctime form denotes a time (hour <= 23, minute <= 59, second <= 60, day 1..31)");
         vf_assert(got == known.t, "an accepted date in IMF-fixdate, RFC 850 or asctime form yields the time it denotes");
         vf_reach("accepted");
     } else if (accepted)
